@@ -72,13 +72,17 @@ def build(src, n=2, fsm_states=FSM, sync=SYNC_CHOICES, failure=('CONTINUE', 'RES
         sync_opt = src.subset('sync', [SO[x] for x in ('STRICT', 'LIST', 'TIMEOUT', 'CORE', 'USER')])
         src.assume(ssize(sync_opt) >= 1)
         has_timeout = scontains(sync_opt, SO.TIMEOUT)
+        has_user = scontains(sync_opt, SO.USER)
     else:
         lists = [[SO[x] for x in item.split(',')] for item in sync]
         sync_opt = src.choice('sync', lists)
         has_timeout = False
+        has_user = False
         for k, l in enumerate(lists):
             if SO.TIMEOUT in l:
                 has_timeout = sor(has_timeout, sync_opt == l) if len(lists) > 1 else True
+            if SO.USER in l:
+                has_user = sor(has_user, sync_opt == l) if len(lists) > 1 else True
     core.options.synchro_options = sync_opt
     fail_opt = src.choice('failure', [SFS[x] for x in failure])
     # TIMEOUT forces CONTINUE (SupvisorsOptions.check_options)
@@ -93,7 +97,7 @@ def build(src, n=2, fsm_states=FSM, sync=SYNC_CHOICES, failure=('CONTINUE', 'RES
         core.identify(i)
         core.set_instance_state(i, S.RUNNING)
     st = src.pick('fsm', list(fsm_states))
-    sit = {'n': n, 'ids': ids, 'sync': sync_opt, 'failure': fail_opt, 'fence': fence_opt}
+    sit = {'n': n, 'ids': ids, 'sync': sync_opt, 'failure': fail_opt, 'fence': fence_opt, 'has_user': has_user}
     # --- processes, conflict, jobs (set up while every instance is RUNNING so that events are accepted)
     has_conflict = conflict and st in ('OPERATION', 'CONCILIATION') and src.pick_flag('conflict')
     core.add_process(ids[0], 'capp', 'dup', ProcessStates.STOPPED)
@@ -180,26 +184,35 @@ def build(src, n=2, fsm_states=FSM, sync=SYNC_CHOICES, failure=('CONTINUE', 'RES
 def assume_invariant(src, core, sit):
     """representation invariant of reachable states (each clause is re-established by the real code after any
     step - asserted by harness/c02.py check_invariant after every step):
-      I1  a non-empty local Master is an instance seen RUNNING locally (update_instance_state resets it otherwise)
+      I1  a non-empty local Master is an instance seen RUNNING locally (update_instance_state resets it otherwise).
+          Not with the USER option: accept_master() adopts any Master declared remotely, whatever the local view, and
+          such a declaration can come back through select_master in ELECTION (observed: two instances can keep a dead
+          Master alive by adopting it from each other's stale declaration): with USER the clause is still *assumed*
+          on the pre-state but it is not asserted after the step - the claim for USER configurations is conditional
+          on it (stated in ASSUMPTIONS)
       I2  the information kept about a peer seen ISOLATED is the default one (reset on invalidation; nothing is
           accepted from it afterwards).  A peer seen STOPPED may have published since (Context.is_valid only refuses
           ISOLATED origins), so nothing is assumed about it
-      I3  what a peer published obeys I1 from that peer's point of view: the Master it declares is RUNNING in the view it
-          published (update_instance_state resets the Master and publishes the new view in one publication) - asserted
+      I3  (same exception) what a peer published obeys I1 from that peer's point of view: the Master it declares is
+          RUNNING in the view it published (update_instance_state resets the Master and publishes the new view in one publication) - asserted
           on every local publication by check_invariant
       (that the local instance sees itself RUNNING from ELECTION on is NOT assumed: the code checks it itself)
     """
     from supvisors.ttypes import SupvisorsInstanceStates as S, SupvisorsStates as F
     ids = sit['ids']
     lm = sit['master']
+    exempt = False
     for k, i in enumerate(ids):
-        src.assume(sor(lm != i, sit['ist'][k] == S.RUNNING))
+        src.assume(sor(exempt, sor(lm != i, sit['ist'][k] == S.RUNNING)))
     for k in range(1, sit['n']):
         p = sit['peers'][k - 1]
         gone = sit['ist'][k] == S.ISOLATED
         default = sand(p['state'] == F.OFF, p['master'] == '')
         src.assume(sor(snot(gone), default))
         src.assume(declares_running_master(p['master'], p['view'], ids))
+
+
+PRE_ELECTION = ('OFF', 'SYNCHRONIZATION')
 
 
 def declares_running_master(master, view, ids):
